@@ -24,6 +24,10 @@ type Op struct {
 	K string `json:"k"`
 	V int    `json:"v"`
 	T int    `json:"t"`
+	// probe only: N = number of remove+add pairs between the failed lookup and the Add; Move = the Tree value is
+	// moved to a new place in between as well
+	N    int  `json:"n,omitempty"`
+	Move bool `json:"move,omitempty"`
 }
 
 type Case struct {
@@ -38,7 +42,7 @@ type Case struct {
 type pair struct{ A, B int8 }
 
 const rule = "case = element type/comparator (int+typ.Compare via NewOrdered, int+reversed comparator via New, string via NewOrdered, " +
-	"2-field struct+lexicographic comparator) x universe 0..U (U in {3,12,40}) x history of add/rem/has/clear/clone/walk on a primary tree and " +
+	"2-field struct+lexicographic comparator) x universe 0..U (U in {3,12,40}) x history of add/rem/has/clear/clone/walk/move (the Tree value copied to a new place, only the copy used from then on)/probe (failed Contains(v), 0..131072 modifications, Add(v)) on a primary tree and " +
 	"(after clone ops) up to two clones of the same lineage, walks abandoned by a panicking callback; after EVERY op both trees are compared with sorted-multiset models: SliceInOrder == model, Len, Contains over " +
 	"the universe, String, Walk*==Slice* (with the tree read again from inside a walk callback), returned slices overwritten by the caller, Remove's result and single-occurrence effect, and pre/in/post-order must be explained by ONE binary tree; " +
 	"non-trivial = >=5 ops incl. a successful Remove of a node with two children, a Remove of an absent value, a duplicate Add"
@@ -117,6 +121,7 @@ func run[T comparable](c Case, k kit[T]) pbt.Outcome {
 	trees := [3]*tree[T]{{t: k.newT(), live: true}, {}, {}}
 	clones := 0
 	seenTwoChild, seenAbsent, seenDup, seenClone, seenClear, seenBigClone, seenThree, seenPanicWalk := false, false, false, false, false, false, false, false
+	seenMove, seenLongProbe := false, false
 	maxN := 0
 
 	var lastPre [3][]int
@@ -185,6 +190,50 @@ func run[T comparable](c Case, k kit[T]) pbt.Outcome {
 		tr := trees[which]
 		v := op.V
 		switch op.K {
+		case "move":
+			// the Tree VALUE moves to a new place and only the copy is used from now on (New and Clone return a Tree by
+			// value: every tree in a program has been moved at least once)
+			nt := &tree[T]{t: tr.t, model: tr.model, live: true}
+			trees[which] = nt
+			tr = nt
+			seenMove = true
+		case "probe":
+			// an unsuccessful Contains(v), then T*2 successful modifications (present elements removed and added again
+			// in turn), then Add(v): nothing the lookup left behind may be trusted after later modifications
+			absent := true
+			for _, m := range tr.model {
+				if m == v {
+					absent = false
+				}
+			}
+			if !absent || len(tr.model) < 3 {
+				break
+			}
+			if tr.t.Contains(k.mk(v)) {
+				return pbt.Fail("op %d %+v on tree %d: Contains(%d) = true, contents %v", i, op, which, v, tr.model)
+			}
+			n := op.N
+			if op.Move {
+				nt := &tree[T]{t: tr.t, model: tr.model, live: true}
+				trees[which] = nt
+				tr = nt
+				seenMove = true
+			}
+			for j := 0; j < n; j++ {
+				x := tr.model[(j*7)%len(tr.model)]
+				if !tr.t.Remove(k.mk(x)) {
+					return pbt.Fail("op %d %+v on tree %d: Remove(%d) of a present value returned false (modification %d of a run)", i, op, which, x, 2*j)
+				}
+				tr.t.Add(k.mk(x))
+			}
+			if n >= 32768 {
+				seenLongProbe = true
+			}
+			tr.t.Add(k.mk(v))
+			pos := sort.Search(len(tr.model), func(j int) bool { return k.cmpInt(tr.model[j], v) > 0 })
+			tr.model = append(tr.model, 0)
+			copy(tr.model[pos+1:], tr.model[pos:])
+			tr.model[pos] = v
 		case "add":
 			for _, m := range tr.model {
 				if m == v {
@@ -357,6 +406,8 @@ func run[T comparable](c Case, k kit[T]) pbt.Outcome {
 	lab(seenClone, "clone")
 	lab(seenBigClone, "clone-of->=2")
 	lab(seenClear, "clear")
+	lab(seenMove, "tree-value-moved")
+	lab(seenLongProbe, "add-after-failed-lookup-and-65536+-modifications")
 	lab(maxN >= 16, "size>=16")
 	lab(maxN >= 64, "size>=64")
 	out.Labels = append(out.Labels, fmt.Sprintf("elem=%d", c.Elem))
@@ -378,6 +429,16 @@ func genOps(t *rapid.T, u int, classes []int, profile int) []Op {
 		k := rapid.SampledFrom(kinds).Draw(t, "k")
 		if k == "clear" && rapid.IntRange(0, 3).Draw(t, "clr") != 0 {
 			k = "add"
+		}
+		if k == "has" {
+			switch rapid.IntRange(0, 5).Draw(t, "has") {
+			case 1, 2:
+				k = "move"
+			case 3:
+				k = "probe"
+				return Op{K: k, V: rapid.IntRange(0, u).Draw(t, "v"), T: rapid.IntRange(0, 2).Draw(t, "t"), Move: rapid.Bool().Draw(t, "move"),
+					N: rapid.SampledFrom([]int{0, 0, 0, 1, 3, 127, 128, 129, 32768, 65536}).Draw(t, "n")}
+			}
 		}
 		return Op{K: k, V: rapid.IntRange(0, u).Draw(t, "v"), T: rapid.IntRange(0, 2).Draw(t, "t")}
 	})
